@@ -445,6 +445,11 @@ func (fc *FuncCtx) callAP(x *ssa.Call) string {
 		// call through a func value (hook)
 		return fc.uniq("r:dyn:"+fc.AP(c.Value), x)
 	}
+	if fc.A.P.InModule(sc) {
+		if ap := fc.accessorAP(x, sc); ap != "" {
+			return ap
+		}
+	}
 	if sc.Signature.Recv() != nil {
 		if pureMethodNames[sc.Name()] && len(args) > 0 {
 			return args[0] + "." + sc.Name() + "(" + strings.Join(args[1:], ",") + ")"
@@ -455,6 +460,35 @@ func (fc *FuncCtx) callAP(x *ssa.Call) string {
 		return shortFn(sc) + "(" + strings.Join(args, ",") + ")"
 	}
 	return fc.uniq("r:"+shortFn(sc), x)
+}
+
+// accessorAP: a side-effect-free module function with a single return is named by what it returns
+// (with its parameters bound to the arguments), so that introducing a trivial accessor is transparent.
+func (fc *FuncCtx) accessorAP(x *ssa.Call, sc *ssa.Function) string {
+	if !fc.A.isPureModuleFunc(sc) || fc.depth >= fc.A.MaxDepth {
+		return ""
+	}
+	var ret *ssa.Return
+	for _, b := range sc.Blocks {
+		if len(b.Instrs) == 0 {
+			continue
+		}
+		if r, ok := b.Instrs[len(b.Instrs)-1].(*ssa.Return); ok {
+			if ret != nil {
+				return ""
+			}
+			ret = r
+		}
+	}
+	if ret == nil || len(ret.Results) != 1 {
+		return ""
+	}
+	sub := fc.inlineCtx(sc, x.Call.Args, x)
+	ap := sub.AP(ret.Results[0])
+	if strings.Contains(ap, "#") {
+		return "" // depends on callee-local values
+	}
+	return ap
 }
 
 func shortFn(fn *ssa.Function) string {
